@@ -1062,6 +1062,71 @@ def np_copy(interp, st, args, kwargs, node):
     return args[0]
 
 
+class WhereResult:
+    """np.where(mask) before it is stacked into coordinates"""
+
+    def __init__(self, mask):
+        self.mask = mask
+
+    def leaves(self):
+        return [self.mask]
+
+    def rebuild(self, leaves):
+        return WhereResult(leaves[0])
+
+    def sig(self):
+        return ("WhereResult",)
+
+
+def np_where(interp, st, args, kwargs, node):
+    if len(args) != 1 or not isinstance(args[0], Grid) or args[0].kind != "bool":
+        raise Outside("np.where outside the one-argument boolean-mask form", node)
+    return WhereResult(args[0])
+
+
+def np_column_stack(interp, st, args, kwargs, node):
+    """np.column_stack(np.where(mask)) / np.argwhere(mask): the coordinates of the True cells, each exactly once
+    (row-major order, which no caller here relies on) -- trusted library contract"""
+    w = args[0]
+    if isinstance(w, WhereResult):
+        return mask_coords(interp, st, w.mask, node)
+    raise Outside("np.column_stack outside column_stack(np.where(mask))", node)
+
+
+def mask_coords(interp, st, mask, node):
+    _trust("np.column_stack(np.where(mask)) / np.argwhere(mask): exactly the index tuples of the True cells, each once")
+    r = mask.rank
+    tmpl = Arr((r,), [z3.Int(V.fresh_name("w")) for _ in range(r)], "int")
+    lst = SymList.fresh("where", tmpl)
+    n = lst.length
+    st.assume(n >= 0)
+    i, j = z3.Int(V.fresh_name("i")), z3.Int(V.fresh_name("j"))
+    ei, ej = lst.get(i), lst.get(j)
+    inr = lambda e: z3.And(*[z3.And(e.flat[k] >= 0, e.flat[k] < to_z3(mask.dims[k])) for k in range(r)])
+    st.assume(z3.ForAll([i], z3.Implies(z3.And(i >= 0, i < n), z3.And(inr(ei), mask.select(ei.flat)))))
+    st.assume(
+        z3.ForAll([i, j], z3.Implies(z3.And(i >= 0, j > i, j < n), z3.Or(*[ei.flat[k] != ej.flat[k] for k in range(r)])))
+    )
+    qs = [z3.Int(V.fresh_name("q")) for _ in range(r)]
+    rng = z3.And(*[z3.And(q >= 0, q < to_z3(d)) for q, d in zip(qs, mask.dims)])
+    st.assume(
+        z3.ForAll(
+            qs,
+            z3.Implies(
+                z3.And(rng, mask.select(qs)),
+                z3.Exists([i], z3.And(i >= 0, i < n, *[ei.flat[k] == qs[k] for k in range(r)])),
+            ),
+        )
+    )
+    return Rows(lst, r)
+
+
+def np_argwhere(interp, st, args, kwargs, node):
+    if isinstance(args[0], Grid) and args[0].kind == "bool":
+        return mask_coords(interp, st, args[0], node)
+    raise Outside("np.argwhere of non-mask", node)
+
+
 def np_isnan(interp, st, args, kwargs, node):
     raise Outside("np.isnan", node)
 
@@ -1193,6 +1258,9 @@ LIBFUNCS = {
     "np.append": np_append,
     "np.sort": np_sort,
     "np.copy": np_copy,
+    "np.where": np_where,
+    "np.column_stack": np_column_stack,
+    "np.argwhere": np_argwhere,
     "np.int8": np_int8,
     "np.int32": np_int8,
     "np.random.randint": rng_randint_np,
